@@ -11,11 +11,6 @@ import AgdbRaft.Lemmas.ElectionInv
 
 namespace Raft
 
-theorem reachable_inv {g : Global} (h : Reachable Variant.fixed g) : Inv g := by
-  induction h with
-  | init size ef hb tt => exact inv_init size ef hb tt
-  | step e _ ih => exact inv_step _ e ih
-
 /-- **C27.** No two nodes are ever leaders for the same term. -/
 theorem C27_election_safety {g : Global} (h : Reachable Variant.fixed g) (a b t : Nat)
     (ha : isLeader g a t) (hb : isLeader g b t) : a = b := by
